@@ -127,12 +127,25 @@ pub fn positive(rng: &mut Rng, len: usize, class: &str) -> Vec<f64> {
 	s.into_iter().map(|x| x + shift).collect()
 }
 
-pub const CANDLE_CLASSES: &[&str] = &["walk", "flat_regime", "plateaus", "alphabet", "noise_pos", "spikes", "monotone"];
+pub const CANDLE_CLASSES: &[&str] = &["walk", "flat_regime", "plateaus", "alphabet", "noise_pos", "spikes", "monotone", "ticks"];
 
 /// a stream of valid candles (low <= open,close <= high, positive prices, volume >= 0)
 pub fn candles(rng: &mut Rng, len: usize, class: &str) -> Vec<Candle> {
-	let cls = if class == "noise_pos" { "noise" } else { class };
+	let cls = if class == "noise_pos" { "noise" } else if class == "ticks" { "walk" } else { class };
 	let mut closes = positive(rng, len + 1, cls);
+	let ticks = class == "ticks";
+	if ticks {
+		// prices on a half-unit grid, trending up and down: equal highs / lows across candles are frequent
+		let drift = 0.15 * rng.gauss();
+		let mut d = 0.0;
+		for (i, c) in closes.iter_mut().enumerate() {
+			if i % 40 == 0 {
+				d = -d - drift;
+			}
+			*c = ((*c - 100.0) * 0.2 + 50.0 + d * (i % 40) as f64).max(1.0);
+			*c = (*c * 2.0).round() / 2.0;
+		}
+	}
 	if class == "noise_pos" {
 		// keep relative noise moderate
 		let m = closes.iter().cloned().fold(0.0, f64::max).max(1.0);
@@ -147,8 +160,8 @@ pub fn candles(rng: &mut Rng, len: usize, class: &str) -> Vec<Candle> {
 		let close = closes[i + 1];
 		let (hi0, lo0) = (open.max(close), open.min(close));
 		let flat = open == close && rng.chance(3, 4);
-		let up = if flat || rng.chance(1, 6) { 0.0 } else { hi0 * 0.01 * rng.unit() };
-		let dn = if flat || rng.chance(1, 6) { 0.0 } else { lo0 * 0.01 * rng.unit() };
+		let up = if ticks { 0.5 * rng.below(3) as f64 } else if flat || rng.chance(1, 6) { 0.0 } else { hi0 * 0.01 * rng.unit() };
+		let dn = if ticks { 0.5 * rng.below(3) as f64 } else if flat || rng.chance(1, 6) { 0.0 } else { lo0 * 0.01 * rng.unit() };
 		let high = hi0 + up;
 		let low = (lo0 - dn).max(lo0 * 0.5);
 		let volume = match vol_mode {
